@@ -225,6 +225,12 @@ func (env *specEnv) lookup(name string) (Val, bool) {
 	if v, ok := env.vars[name]; ok {
 		return v, true
 	}
+	if name == "idx" && env.resolve != nil {
+		// a program variable named idx shadows the loop-counter alias
+		if v, ok := env.resolve(name); ok {
+			return v, true
+		}
+	}
 	if v, ok := env.st.ghost[name]; ok {
 		return v, true
 	}
